@@ -13,7 +13,7 @@ ASSUMPTIONS = ['element type abstracted to an int tag: copies/moves are value co
                'postconditions speak about two adjacent tracked element indices g_k, g_k+1 (arbitrary): what holds for them holds for every index',
                'inline capacities N in {1, 4} (quick) and {1, 2, 4, 64} (thorough); alignof(T) in {8, 64}: N and alignof(T) only enter comparisons',
                'range-for over another SmallVector is rendered as the index loop over [0, rawSize()) of its data() (begin() = data(), end() = data() + rawSize(), one-line bodies checked textually)',
-               'iterator-pair / initializer_list constructors, operator[], front/back, iterators are not under contract']
+               'iterator-pair / initializer_list / (count[, value]) constructors, operator[], front/back, iterators are not under contract']
 EXPLANATION = 'every mutating operation against the std::vector effect on an arbitrary pair of adjacent indices, with lifetime, bounds and alignment obligations at each element access'
 
 F = 'dispenso/small_vector.h'
@@ -110,6 +110,16 @@ def build(ctx):
     em('SV_reserve', r'void\s+reserve\s*\(\s*size_type\s+newCap\s*\)')
     em('SV_dtor', r'~SmallVector\s*\(\s*\)')
     em('SV_move_ctor', r'SmallVector\s*\(\s*SmallVector&&\s+other\s*\)\s*noexcept', must=['R12'], ctor=True)
+    # range-for over the other vector: begin() = data(), end() = data() + rawSize() (checked textually), rendered as the index loop
+    if not (re.search(r'const_iterator\s+begin\(\)\s*const\s+noexcept\s*\{\s*return\s+data\(\);\s*\}', txt) and re.search(r'const_iterator\s+end\(\)\s*const\s+noexcept\s*\{\s*return\s+data\(\)\s*\+\s*rawSize\(\);\s*\}', txt)):
+        raise X.ExtractionError('SmallVector: const begin()/end() are no longer data() / data() + rawSize()')
+    RF = [('R6', r'for\s*\(const auto&\s+(\w+)\s*:\s*other\)\s*\{\s*emplace_back\(\1\);\s*\}',
+           'for (size_t it_ = 0; it_ < SV_rawSize(other); ++it_) { SV_emplace_back(self, (Arg){1, 0, DATA(other), it_}); }', 1),
+          ('R17', r'this\s*!=\s*&other', 'self != other', 'opt'), ('R10', r'return\s+\*this;', 'return;', 'opt')]
+    em('SV_copy_ctor', r'SmallVector\s*\(\s*const\s+SmallVector&\s+other\s*\)', must=['R6'], extra=RF, ctor=True)
+    em('SV_copy_assign', r'SmallVector&\s+operator=\s*\(\s*const\s+SmallVector&\s+other\s*\)', must=['R6'], extra=RF)
+    em('SV_move_assign', r'SmallVector&\s+operator=\s*\(\s*SmallVector&&\s+other\s*\)\s*noexcept', must=['R12'],
+       extra=[('R17', r'this\s*!=\s*&other', 'self != other', 1), ('R10', r'return\s+\*this;', 'return;', 1)])
     S = 'specs/c38_smallvector.c'
     units = []
     BOUND = 4
@@ -127,8 +137,12 @@ def build(ctx):
         # vectors of at most BOUND elements -- bounded stand-ins, never counted as proved (loop contracts over the block table did not
         # close in the time available: DESIGN section 5, C38)
         bd = dict(d); bd['SIZE_BOUND'] = str(BOUND)
-        for fn in ('SV_growToHeap', 'SV_destroyAll', 'SV_ensureCapacity', 'SV_emplace_back', 'SV_pop_back', 'SV_clear', 'SV_reserve', 'SV_dtor', 'SV_resize', 'SV_resize_value', 'SV_erase', 'SV_move_ctor'):
+        copy_here = (ctx.tier == 'thorough') or (n, al) == (1, 8)     # the copy units take ~4 min each: one instantiation in the quick tier
+        for fn in ('SV_growToHeap', 'SV_destroyAll', 'SV_ensureCapacity', 'SV_emplace_back', 'SV_pop_back', 'SV_clear', 'SV_reserve', 'SV_dtor', 'SV_resize', 'SV_resize_value', 'SV_erase', 'SV_move_ctor', 'SV_move_assign', 'SV_copy_ctor', 'SV_copy_assign'):
+            if fn in ('SV_copy_ctor', 'SV_copy_assign') and not copy_here:
+                continue
             units.append(Unit('SmallVector::' + fn[3:], 'cbmc', S, fn, replace=acc, unwind=12, replay=dict(prog='replay/c38_replay.cpp', args=lambda ce, u: ['1']),
+                              **({'object_bits': 12} if fn in ('SV_copy_ctor', 'SV_copy_assign') else {}),
                               bounded='sizes, capacities and counts <= %d elements (element loops unwound); element index g_k arbitrary' % BOUND,
-                              **dict(common, defines=bd, expect=[r'postcondition', r'E_check\.assertion'] if fn not in ('SV_reserve', 'SV_ensureCapacity') else [r'postcondition'])))
+                              **dict({k: v for k, v in common.items() if not (k == 'object_bits' and fn in ('SV_copy_ctor', 'SV_copy_assign'))}, defines=bd, expect=[r'postcondition', r'E_check\.assertion'] if fn not in ('SV_reserve', 'SV_ensureCapacity') else [r'postcondition'])))
     return units
